@@ -355,6 +355,8 @@ impl<'a> Peripheral<'a> {
                 // when it comes back.
                 log::warn!("Peripheral #{} stopped responding!", self.address);
                 self.state = PeripheralState::Offline;
+                // The next request is the first one of a new communication relation.
+                self.fcb.reset();
                 Err((tx, Some(PeripheralEvent::Offline)))
             }
             PeripheralState::Offline => {
